@@ -462,64 +462,40 @@ Proof. induction a as [|x a IH]; cbn [List.length firstn app]; [now destruct b|n
 Lemma skipn_len_app {A} (a b : list A) : skipn (List.length a) (a ++ b) = b.
 Proof. induction a as [|x a IH]; cbn [List.length skipn app]; [reflexivity|exact IH]. Qed.
 
-Lemma write_at_mid {B} (pre m1 rest rows : list B) :
-  List.length m1 = List.length rows ->
-  write_at (pre ++ m1 ++ rest) (List.length pre) rows = Ok (pre ++ rows ++ rest).
+Lemma write_at_ok {B} (out rows : list B) a :
+  a + List.length rows <= List.length out ->
+  write_at out a rows = Ok (firstn a out ++ rows ++ skipn (a + List.length rows) out)
+  /\ List.length (firstn a out ++ rows ++ skipn (a + List.length rows) out) = List.length out.
 Proof.
-  intro Hl. unfold write_at. rewrite !app_length.
-  destruct (List.length pre + List.length rows <=? List.length pre + (List.length m1 + List.length rest)) eqn:E;
-    [|apply Nat.leb_gt in E; lia].
-  rewrite firstn_len_app. do 3 f_equal.
-  rewrite <- Hl, <- app_length, app_assoc. apply skipn_len_app.
+  intro H. unfold write_at. rewrite (proj2 (Nat.leb_le _ _) H). split; [reflexivity|].
+  rewrite !app_length, firstn_length, skipn_length. lia.
 Qed.
 
-Definition len1 {B} (it : option (list B)) : Prop := match it with Some r => List.length r = 1 | None => True end.
-
-(* EXACT characterisation of _map's loop: the non-None results are written back to back from `start`,
-   whatever chunk they came from *)
-Lemma reassemble_compact_mid {B} (unbound : bool) : forall (items : list (option (list B))) pre mid suf,
-  List.length mid = List.length (concat (somes items)) ->
-  (unbound = true -> Forall len1 items) ->
-  reassemble_out unbound (pre ++ mid ++ suf) (List.length pre) items = Ok (pre ++ concat (somes items) ++ suf).
-Proof.
-  induction items as [|[rows|] r IH]; intros pre mid suf Hlen Hun; cbn [reassemble_out somes concat].
-  - destruct mid; [reflexivity|discriminate].
-  - assert (Hchk : unbound && negb (List.length rows =? 1) = false).
-    { destruct unbound; [|reflexivity]. specialize (Hun eq_refl). inversion Hun as [|? ? H1 ?]; subst.
-      cbn in H1. rewrite H1. reflexivity. }
-    rewrite Hchk. cbn [somes concat] in Hlen. rewrite app_length in Hlen.
-    rewrite <- (firstn_skipn (List.length rows) mid), <- app_assoc.
-    rewrite write_at_mid by (rewrite firstn_length; lia). cbn [rbind].
-    rewrite <- app_length.
-    replace (pre ++ rows ++ skipn (List.length rows) mid ++ suf) with ((pre ++ rows) ++ skipn (List.length rows) mid ++ suf)
-      by now rewrite <- app_assoc.
-    rewrite IH.
-    + now rewrite <- !app_assoc.
-    + rewrite skipn_length. lia.
-    + intro Hu. specialize (Hun Hu). now inversion Hun.
-  - apply IH; [exact Hlen|]. intro Hu. specialize (Hun Hu). now inversion Hun.
-Qed.
-
-Theorem reassemble_compact {B} : forall unbound (items : list (option (list B))) out start,
-  start + List.length (concat (somes items)) <= List.length out ->
-  (unbound = true -> Forall len1 items) ->
-  reassemble_out unbound out start items
-  = Ok (firstn start out ++ concat (somes items) ++ skipn (start + List.length (concat (somes items))) out).
-Proof.
-  intros unbound items out start Hle Hun. set (L := List.length (concat (somes items))) in *.
-  assert (Hdec : out = firstn start out ++ firstn L (skipn start out) ++ skipn (start + L) out).
-  { rewrite <- skipn_skipn', firstn_skipn, firstn_skipn. reflexivity. }
-  assert (Hs : List.length (firstn start out) = start) by (rewrite firstn_length; lia).
-  transitivity (reassemble_out unbound (firstn start out ++ firstn L (skipn start out) ++ skipn (start + L) out)
-                               (List.length (firstn start out)) items).
-  { rewrite Hs, <- Hdec. reflexivity. }
-  apply reassemble_compact_mid; [|exact Hun].
-  rewrite firstn_length, skipn_length. fold L. lia.
-Qed.
-
-(* the sequential form: chunk k at slice k *)
+(* a result is None or has the length of its chunk *)
+Definition fitsn {B} (ab : nat * nat) (it : option (list B)) : Prop :=
+  match it with Some rows => List.length rows = snd ab - fst ab | None => True end.
+(* a result is present and has the length of its chunk *)
 Definition fits {B} (ab : nat * nat) (it : option (list B)) : Prop :=
   exists rows, it = Some rows /\ List.length rows = snd ab - fst ab.
+
+Lemma fits_fitsn {B} bs (items : list (option (list B))) : Forall2 fits bs items -> Forall2 fitsn bs items.
+Proof. induction 1 as [|ab it bs' its (rows & -> & Hl) _ IH]; constructor; [exact Hl|exact IH]. Qed.
+
+(* with out=: chunk k of the results is written at slice k of out; None leaves the slice as it was — for ALL result lists *)
+Theorem reassembly_offsets {B} : forall bs (items : list (option (list B))) out lo hi,
+  tiles lo hi bs -> hi <= List.length out -> Forall2 fitsn bs items ->
+  reassemble_out out bs items = Ok (seq_out out bs items)
+  /\ shared_out out bs items = Ok (seq_out out bs items).
+Proof.
+  induction bs as [|[a b] r IH]; intros items out lo hi Ht Hhi HF; inversion HF as [|? it ? its Hfit HF']; subst; cbn [tiles] in Ht.
+  - split; reflexivity.
+  - destruct Ht as (-> & Hab & Hr). pose proof (tiles_le _ _ _ Hr) as Hle.
+    destruct it as [rows|]; cbn [fitsn fst snd] in Hfit; cbn [reassemble_out shared_out seq_out].
+    + rewrite (proj2 (Nat.eqb_eq _ _) Hfit).
+      destruct (write_at_ok out rows lo ltac:(lia)) as [Hw Hlen]. rewrite Hw. cbn [rbind].
+      apply (IH its _ b hi Hr); [lia|exact HF'].
+    + apply (IH its out b hi Hr); assumption.
+Qed.
 
 Lemma store_mid {B} (pre mid suf rows : list B) :
   List.length rows <= List.length mid ->
@@ -530,6 +506,7 @@ Proof.
   replace (List.length rows - List.length mid) with 0 by lia. cbn [skipn]. now rewrite <- app_assoc.
 Qed.
 
+(* when every chunk has a result the buffer is the concatenation of the results *)
 Lemma seq_out_mid {B} : forall bs (items : list (option (list B))) pre mid suf lo hi,
   tiles lo hi bs -> lo = List.length pre -> List.length mid = hi - lo -> Forall2 fits bs items ->
   seq_out (pre ++ mid ++ suf) bs items = pre ++ concat (somes items) ++ suf.
@@ -556,101 +533,43 @@ Proof.
     cbn [somes concat]. rewrite app_length, (IH _ b hi) by assumption. lia.
 Qed.
 
-(* with out=, when every chunk returns a result of its own length, chunk k is written at its own slice *)
-Theorem reassembly_offsets_all_some {B} : forall unbound n bs (items : list (option (list B))) out,
-  tiles 0 n bs -> List.length out = n -> Forall2 fits bs items ->
-  (unbound = true -> Forall len1 items) ->
-  reassemble_out unbound out 0 items = Ok (seq_out out bs items) /\ seq_out out bs items = concat (somes items).
+Lemma seq_out_all_some {B} : forall n bs (items : list (option (list B))) out,
+  tiles 0 n bs -> List.length out = n -> Forall2 fits bs items -> seq_out out bs items = concat (somes items).
 Proof.
-  intros unbound n bs items out Ht Hn HF Hun.
-  pose proof (fits_somes_length _ _ _ _ Ht HF) as HL. rewrite Nat.sub_0_r in HL.
-  assert (Hseq : seq_out out bs items = concat (somes items)).
-  { pose proof (seq_out_mid bs items [] out [] 0 n Ht eq_refl ltac:(lia) HF) as H.
-    cbn [app] in H. rewrite !app_nil_r in H. exact H. }
-  split; [|exact Hseq].
-  rewrite reassemble_compact by (try assumption; lia).
-  cbn [firstn app Nat.add]. rewrite HL, <- Hn, skipn_all, app_nil_r, Hseq. reflexivity.
-Qed.
-
-(* None results: the code and the sequential form disagree as soon as a None precedes a result (finding S1) *)
-Theorem reassembly_offsets_refuted :
-  exists (out : list Z) bs items,
-    tiles 0 (List.length out) bs /\ List.length items = List.length bs /\
-    reassemble_out false out 0 items <> Ok (seq_out out bs items).
-Proof.
-  exists [0; 0; 0]%Z, [(0, 1); (1, 3)], [None; Some [7; 8]%Z].
-  split; [cbn; repeat split; lia|]. split; [reflexivity|]. vm_compute. discriminate.
-Qed.
-
-(* ... and agree when the None results come last *)
-Lemma seq_out_nones {B} : forall bs (out : list B), seq_out out bs (repeat None (List.length bs)) = out.
-Proof. induction bs as [|[a b] r IH]; intro out; cbn [List.length repeat seq_out]; [reflexivity|apply IH]. Qed.
-
-Lemma reassemble_nones {B} : forall k unbound (out : list B) start, reassemble_out unbound out start (repeat None k) = Ok out.
-Proof. induction k as [|k IH]; intros; cbn [repeat reassemble_out]; [reflexivity|apply IH]. Qed.
-
-Lemma reassemble_app_nones {B} : forall unbound (items : list (option (list B))) k out start r,
-  reassemble_out unbound out start items = Ok r ->
-  reassemble_out unbound out start (items ++ repeat None k) = Ok r.
-Proof.
-  induction items as [|[rows|] rest IH]; intros k out start r; cbn [app reassemble_out].
-  - intro H. injection H as <-. apply reassemble_nones.
-  - destruct (unbound && negb (List.length rows =? 1)); [discriminate|].
-    destruct (write_at out start rows); cbn [rbind]; [apply IH|discriminate].
-  - apply IH.
-Qed.
-
-Lemma seq_out_app {B} : forall bs1 (items1 : list (option (list B))) bs2 items2 out,
-  List.length bs1 = List.length items1 ->
-  seq_out out (bs1 ++ bs2) (items1 ++ items2) = seq_out (seq_out out bs1 items1) bs2 items2.
-Proof.
-  induction bs1 as [|[a b] r IH]; intros items1 bs2 items2 out Hl; destruct items1 as [|[rows|] rest]; try discriminate.
-  - reflexivity.
-  - cbn [app seq_out]. apply IH. cbn in Hl. lia.
-  - cbn [app seq_out]. apply IH. cbn in Hl. lia.
+  intros n bs items out Ht Hn HF.
+  pose proof (seq_out_mid bs items [] out [] 0 n Ht eq_refl ltac:(lia) HF) as H.
+  cbn [app] in H. now rewrite !app_nil_r in H.
 Qed.
 
 Lemma Forall2_len {X Y} (R : X -> Y -> Prop) l1 l2 : Forall2 R l1 l2 -> List.length l1 = List.length l2.
 Proof. induction 1; cbn; congruence. Qed.
 
-Theorem reassembly_offsets_partial {B} : forall unbound n m bs1 bs2 (items1 : list (option (list B))) out,
-  tiles 0 m bs1 -> tiles m n bs2 -> List.length out = n -> Forall2 fits bs1 items1 ->
-  (unbound = true -> Forall len1 items1) ->
-  reassemble_out unbound out 0 (items1 ++ repeat None (List.length bs2))
-  = Ok (seq_out out (bs1 ++ bs2) (items1 ++ repeat None (List.length bs2))).
+(* ------------------------------------------------------------------ map = the sequential form *)
+Lemma take_length {A} (rows : list A) a b : b <= List.length rows -> List.length (take rows (a, b)) = b - a.
+Proof. intro H. unfold take. cbn [fst snd]. rewrite firstn_length, skipn_length. lia. Qed.
+
+(* any function whose results (when not None) have the length of their chunk: out= regular and out= shared both end up
+   holding the sequential form, for every chunking *)
+Theorem map_out_sequential {A B} : forall (f : list A -> option (list B)) (rows : list A) out cs nc nw gen l,
+  List.length rows > 0 -> List.length out = List.length rows ->
+  split_pieces (List.length rows) cs nc nw gen false = Ok l ->
+  (forall ab, In ab (map (bounds (List.length rows)) l) -> fitsn ab (f (take rows ab))) ->
+  let bs := map (bounds (List.length rows)) l in
+  let items := trusted_imap (fun ab => f (take rows ab)) bs in
+  map_model f rows ORegular out cs nc nw gen = Ok (RetOut (seq_out out bs items)) /\
+  map_model f rows OShared out cs nc nw gen = Ok (RetNoneOut (seq_out out bs items)).
 Proof.
-  intros unbound n m bs1 bs2 items1 out H1 H2 Hn HF Hun.
-  pose proof (tiles_le _ _ _ H2) as Hmn.
-  rewrite seq_out_app by (eapply Forall2_len; eassumption). rewrite seq_out_nones.
-  apply reassemble_app_nones.
-  pose proof (fits_somes_length _ _ _ _ H1 HF) as HL. rewrite Nat.sub_0_r in HL.
-  rewrite reassemble_compact by (try assumption; lia). cbn [firstn app Nat.add]. rewrite HL.
-  pose proof (seq_out_mid bs1 items1 [] (firstn m out) (skipn m out) 0 m H1 eq_refl) as H.
-  cbn [app] in H. rewrite firstn_skipn in H. rewrite H; [reflexivity| |exact HF].
-  rewrite firstn_length. lia.
+  intros f rows out cs nc nw gen l Hn Ho Hs Hf bs items. unfold map_model. rewrite Hs. cbn [rbind].
+  rewrite Ho, Hs. cbn [rbind]. rewrite Nat.eqb_refl.
+  pose proof (chunks_partition _ _ _ _ _ _ _ Hn Hs) as Ht. fold bs in Ht |- *. fold items.
+  assert (HF : Forall2 fitsn bs items).
+  { unfold items, trusted_imap. clear Ht. revert Hf. fold bs. generalize bs. intro l0. induction l0 as [|ab r IH]; intro Hf; cbn [map]; constructor.
+    - apply Hf. now left.
+    - apply IH. intros ab' Hin. apply Hf. now right. }
+  destruct (reassembly_offsets bs items out 0 _ Ht ltac:(lia) HF) as [H1 H2].
+  rewrite H1, H2. split; reflexivity.
 Qed.
 
-(* shared / memmap out=: every worker writes its own slice *)
-Lemma shared_out_mid {B} : forall bs (items : list (option (list B))) pre mid suf lo hi,
-  tiles lo hi bs -> lo = List.length pre -> List.length mid = hi - lo -> Forall2 fits bs items ->
-  shared_out (pre ++ mid ++ suf) bs items = Ok (pre ++ concat (somes items) ++ suf).
-Proof.
-  induction bs as [|[a b] r IH]; intros items pre mid suf lo hi Ht Hlo Hm HF; inversion HF; subst; cbn [tiles] in Ht.
-  - cbn [shared_out somes concat]. subst hi. rewrite Nat.sub_diag in Hm. destruct mid; [reflexivity|discriminate].
-  - destruct Ht as (-> & Hab & Hr). pose proof (tiles_le _ _ _ Hr).
-    match goal with H : fits _ _ |- _ => destruct H as (rows & -> & Hrl) end. cbn [fst snd] in Hrl.
-    cbn [shared_out somes concat]. rewrite Hrl, Nat.eqb_refl.
-    rewrite <- (firstn_skipn (List.length rows) mid), <- (app_assoc (firstn _ mid)).
-    rewrite write_at_mid by (rewrite firstn_length; lia). cbn [rbind].
-    replace (pre ++ rows ++ skipn (List.length rows) mid ++ suf) with ((pre ++ rows) ++ skipn (List.length rows) mid ++ suf)
-      by now rewrite <- app_assoc.
-    rewrite (IH _ (pre ++ rows) _ suf b hi); try assumption.
-    + now rewrite <- !app_assoc.
-    + rewrite app_length. lia.
-    + rewrite skipn_length. lia.
-Qed.
-
-(* ------------------------------------------------------------------ map = the function applied to the whole *)
 Section RowWise.
 Context {A B : Type} (g : A -> B).
 Let f (rows : list A) : option (list B) := Some (map g rows).
@@ -666,9 +585,6 @@ Proof.
   intros Ht Hn. rewrite rowwise_items, <- map_map, <- concat_map, (take_tiles rows bs 0 n Ht).
   cbn [skipn]. rewrite Nat.sub_0_r, <- Hn, firstn_all. reflexivity.
 Qed.
-
-Lemma take_length (rows : list A) a b : b <= List.length rows -> List.length (take rows (a, b)) = b - a.
-Proof. intro H. unfold take. cbn [fst snd]. rewrite firstn_length, skipn_length. lia. Qed.
 
 Lemma rowwise_fits (rows : list A) : forall bs lo n,
   tiles lo n bs -> n <= List.length rows -> Forall2 fits bs (trusted_imap (fun ab => f (take rows ab)) bs).
@@ -693,49 +609,20 @@ Proof.
   - rewrite Hc. reflexivity.
 Qed.
 
-Lemma unbound_len1 (rows : list A) : forall lo n,
-  lo + n <= List.length rows ->
-  Forall len1 (trusted_imap (fun ab => f (take rows ab)) (map (bounds (List.length rows)) (map PIx (seq lo n)))).
-Proof.
-  intros lo n. revert lo. induction n as [|n IH]; intros lo Hle; cbn [seq map trusted_imap]; constructor.
-  - cbn [len1 f bounds]. rewrite map_length, take_length by lia. lia.
-  - apply IH. lia.
-Qed.
-
-Lemma split_unbound n gen l : split_pieces n (Some 0) None 0 gen false = Ok l -> l = map PIx (seq 0 n).
-Proof. unfold split_pieces, split_call_of. cbn [andb]. destruct gen; cbn; congruence. Qed.
-
-(* out= regular: the buffer ends up holding the function applied to the whole *)
+(* out= regular / shared: the buffer ends up holding the function applied to the whole *)
 Theorem map_rowwise_out : forall (rows : list A) out cs nc nw gen l,
   List.length rows > 0 -> List.length out = List.length rows ->
   split_pieces (List.length rows) cs nc nw gen false = Ok l ->
-  map_model f rows ORegular out cs nc nw gen = Ok (RetOut (map g rows)).
-Proof.
-  intros rows out cs nc nw gen l Hn Ho Hs. unfold map_model. rewrite Hs. cbn [rbind].
-  pose proof (chunks_partition _ _ _ _ _ _ _ Hn Hs) as Ht.
-  pose proof (rowwise_fits rows _ _ _ Ht (Nat.le_refl _)) as HF.
-  set (unbound := match cs with Some 0 => true | _ => false end).
-  assert (Hun : unbound = true -> Forall len1 (trusted_imap (fun ab => f (take rows ab)) (map (bounds (List.length rows)) l))).
-  { intro Hu. assert (cs = Some 0) as -> by (unfold unbound in Hu; destruct cs as [[|?]|]; congruence).
-    assert (l = map PIx (seq 0 (List.length rows))) as ->.
-    { revert Hs. unfold split_pieces, split_call_of. cbn [andb]. destruct nc; [discriminate|]. destruct gen; cbn; congruence. }
-    apply unbound_len1. lia. }
-  destruct (reassembly_offsets_all_some unbound _ _ _ out Ht Ho HF Hun) as [H1 H2].
-  rewrite H1. cbn [rmap]. rewrite H2, (rowwise_concat rows _ _ Ht eq_refl). reflexivity.
-Qed.
-
-(* out= shared / memmap: same content, written inside the workers *)
-Theorem map_rowwise_shared : forall (rows : list A) out cs nc nw gen l,
-  List.length rows > 0 -> List.length out = List.length rows ->
-  split_pieces (List.length rows) cs nc nw gen false = Ok l ->
+  map_model f rows ORegular out cs nc nw gen = Ok (RetOut (map g rows)) /\
   map_model f rows OShared out cs nc nw gen = Ok (RetNoneOut (map g rows)).
 Proof.
-  intros rows out cs nc nw gen l Hn Ho Hs. unfold map_model. rewrite Hs. cbn [rbind].
-  rewrite Ho, Hs. cbn [rbind]. rewrite Nat.eqb_refl.
+  intros rows out cs nc nw gen l Hn Ho Hs.
   pose proof (chunks_partition _ _ _ _ _ _ _ Hn Hs) as Ht.
   pose proof (rowwise_fits rows _ _ _ Ht (Nat.le_refl _)) as HF.
-  pose proof (shared_out_mid _ _ [] out [] 0 _ Ht eq_refl ltac:(lia) HF) as H.
-  cbn [app] in H. rewrite !app_nil_r in H. rewrite H. cbn [rmap].
-  rewrite (rowwise_concat rows _ _ Ht eq_refl). reflexivity.
+  assert (Hf : forall ab, In ab (map (bounds (List.length rows)) l) -> fitsn ab (f (take rows ab))).
+  { intros [a b] Hin. destruct (tiles_in _ _ _ Ht a b Hin) as (_ & _ & Hb).
+    cbn [fitsn f fst snd]. rewrite map_length, take_length by lia. reflexivity. }
+  destruct (map_out_sequential f rows out cs nc nw gen l Hn Ho Hs Hf) as [H1 H2].
+  rewrite H1, H2, (seq_out_all_some _ _ _ out Ht Ho HF), (rowwise_concat rows _ _ Ht eq_refl). split; reflexivity.
 Qed.
 End RowWise.
